@@ -45,6 +45,14 @@ CHECKS = {
             'must be reported, and every silent inference must describe the run-time value.',
             'CPython eval is the reference; conformance checker is written against pedal type class names only; '
             'value-dependent TypeErrors are not judged; literal element types stand for their base type.', '3/C19'),
+    'C07': ('Complete per-family operand tables (assertion + negation x 4 raw/proxy wrappings x argument order) judged '
+            'against the Python relation on the received operands, metamorphic string-normalisation variants, '
+            'Hypothesis-perturbed nested values and generated unit_test suites with a known pass count',
+            'About 23k cases (each running 8-16 assertion calls) per quick run over every assert_* family; proxies and '
+            'error operands come from real sandbox calls. Two-directional oracle plus negation, symmetry and wrapping '
+            'invariance.',
+            'Python relation evaluated in-process is the reference; normalised string equality judged only through its '
+            'documented consequences; int/float isinstance cells and tolerance-boundary floats skipped.', '3/C07'),
 }
 
 NOT_YET = {}
